@@ -58,11 +58,12 @@ theorem base_transfer (s t : St) (f : Nat) (hb : Base s f)
 theorem cov_transfer (s t : St) (f : Nat) (hc : Cov s f)
     (hg : ∀ x ∈ groups t, x.idx ≤ f → x ∈ groups s)
     (h1 : t.fifo = s.fifo) (h2 : t.held = s.held) (h3 : t.hwm = s.hwm) (h4 : t.maxIn = s.maxIn)
-    (h5 : t.batcher = s.batcher) (h6 : t.delivered = s.delivered) : Cov t f := by
+    (h5 : t.batcher = s.batcher) (h6 : t.delivered = s.delivered)
+    (h7 : t.dropped = s.dropped := by rfl) : Cov t f := by
   intro x hx hxf
   have := hc x (hg x hx hxf) hxf
   unfold DoneG PendG BatchG Live at *
-  rw [h1, h2, h3, h4, h5, h6]
+  rw [h1, h2, h3, h4, h5, h6, h7]
   exact this
 
 theorem flush_batcher_nil (s : St) : (flushBatcher s).batcher = [] := by
@@ -83,7 +84,9 @@ theorem pump_batcher (fuel : Nat) (s : St) : (pump fuel s).batcher = s.batcher :
         · rw [ih]
         · split
           · rw [ih]
-          · rfl
+          · split
+            · rw [ih]
+            · rfl
       · split
         · rfl
         · split <;> rw [ih]
